@@ -22,6 +22,12 @@ ZM = {"p1": -0.02, "p2": 0.02, "sp1": 0.05, "sp2": 0.08, "sm1": -0.05, "sm2": -0
 BEAM_E = 60000.0
 
 
+def ne_te(rec):
+    if not rec["broad"]:
+        return 0.0, 0.0
+    return (1e21, 5.0) if rec.get("regime") == "mixed" else (5e19, 50.0)
+
+
 def bvec(cs, bzero):
     from raysect.core import Vector3D
     if bzero:
@@ -45,7 +51,7 @@ def build(rec, pol=None):
     m = rec["model"]
     p = Plasma()
     p.b_field = ConstantVector3D(bvec(rec["cs"], rec["bzero"]))
-    ne, te = (5e19, 50.0) if rec["broad"] else (0.0, 0.0)
+    ne, te = ne_te(rec)
     p.electron_distribution = Maxwellian(Constant3D(ne), Constant3D(te), ConstantVector3D(Vector3D(0, 0, 0)), 9.1093837015e-31)
     sp = Species(deuterium, 0, Maxwellian(Constant3D(1e18), Constant3D(float(rec["tsp"])), ConstantVector3D(Vector3D(*VEL)), 2.014 * 1.66053906660e-27))
     p.composition = [sp]
@@ -77,6 +83,53 @@ def build(rec, pol=None):
 def gauss_bin(centre, sigma, lo, hi):
     s = sigma * math.sqrt(2.0)
     return 0.5 * (math.erf((hi - centre) / s) - math.erf((lo - centre) / s)) / (hi - lo)
+
+
+STARK_C = (3.71e-18, 0.7665, 0.064)
+STARK_NE_TE = (5e19, 50.0)
+_PV_A = [1., 0.15882, 1.04388, -1.38281, 0.46251, 0.82325, -0.58026]      # FWHM_V / FWHM_G in powers of L/G (L <= G)
+_PV_B = [1., 0, 0.57575, 0.37902, -0.42519, -0.31525, 0.31718]            # FWHM_V / FWHM_L in powers of G/L (L > G)
+_PV_ETA = [5.14820e-04, 1.38821e+00, -9.60424e-02, -3.83995e-02, -7.40042e-03, -5.47626e-04]
+
+
+def stark_params(rec):
+    """documented pseudo-Voigt parameters -> (sigma of the Gaussian part, FWHM of the Lorentzian part, Lorentzian weight)"""
+    c, a, b = STARK_C
+    ne, te = ne_te(rec)
+    fl = c * ne ** a / te ** b if ne > 0 and te > 0 else 0.0
+    fg = 2 * math.sqrt(2 * math.log(2)) * sigma_of(dict(rec, model="stark"))
+    if fl == 0 and fg == 0:
+        return 0.0, 0.0, 0.0
+    if fg <= fl:
+        fv = fl * sum(k * (fg / fl) ** n for n, k in enumerate(_PV_B))
+    else:
+        fv = fg * sum(k * (fl / fg) ** n for n, k in enumerate(_PV_A))
+    r = fl / fv
+    if r < 0.01:
+        return fv / (2 * math.sqrt(2 * math.log(2))), 0.0, 0.0
+    if r > 0.999:
+        return 0.0, fv, 1.0
+    eta = math.exp(sum(k * math.log(r) ** n for n, k in enumerate(_PV_ETA)))
+    return fv / (2 * math.sqrt(2 * math.log(2))), fv, eta
+
+
+def lorentz_bin(centre, fwhm, lo, hi):
+    """bin average of the modified Lorentzian  C / (|x - x0|^(5/2) + (fwhm/2)^(5/2)), cut at +-50 fwhm and normalised to 1 there"""
+    from scipy.special import hyp2f1
+    a = (0.5 * fwhm) ** 2.5
+
+    def prim(x):            # integral from 0 to x >= 0 of dx / (x^2.5 + a)
+        return x / a * hyp2f1(0.4, 1.0, 1.4, -x ** 2.5 / a)
+    cut = 50.0 * fwhm
+    norm = 2 * prim(cut)
+    lo, hi2 = max(lo, centre - cut), min(hi, centre + cut)
+    if hi2 <= lo:
+        return 0.0
+
+    def cdf(x):
+        d = x - centre
+        return math.copysign(prim(abs(d)), d)
+    return (cdf(hi2) - cdf(lo)) / norm
 
 
 def positions(rec):
@@ -156,7 +209,7 @@ def replay(rec, ctx):
     tag = f"{m}:{rec['pol']}"
 
     def bad(what, detail):
-        viol.append({"sig": f"{tag}:{what}", "detail": f"{detail} | cos2={rec['cos2']} bzero={rec['bzero']} T={rec['tsp']} broad={rec['broad']} window={rec['window']}"})
+        viol.append({"sig": f"{tag}:{what}", "detail": f"{detail} | cos2={rec['cos2']} bzero={rec['bzero']} T={rec['tsp']} broad={rec['broad']} regime={rec.get('regime')} window={rec['window']}"})
     pos = positions(rec)
     sigma = sigma_of(rec)
     lo, hi, bins = window(rec, pos, sigma)
@@ -188,12 +241,27 @@ def replay(rec, ctx):
             integral = sum(got) * dl
             bad("bins-differ-from-bin-averaged-profile", f"bin {i}: {got[i]!r} vs {want[i]!r}; integral {integral!r} vs {sum(want) * dl!r}")
     else:
-        # pseudo-Voigt: the integral over an ample window is R x share (Lorentzian tails are cut at +-50 FWHM by design)
-        if rec["window"] == "coarse":
-            tot = float(Fraction(rec["total"][0], rec["total"][1])) * R0
-            integral = sum(got) * dl
-            if abs(integral - tot) > 2e-3 * R0:
-                bad("integral-differs-from-radiance-share", f"{integral!r} vs {tot!r}")
+        # pseudo-Voigt: every bin vs  sum_c R w_c [(1 - eta) Gauss bin average + eta modified-Lorentzian bin average]
+        # with the documented width / weight fits; the Lorentzian part is integrated numerically by the code
+        # (GaussianQuadrature, relative tolerance 1e-5 per bin)
+        sg, fl, eta = stark_params(rec)
+        want = [0.0] * bins
+        for c in comps:
+            w = float(Fraction(c["w"][0], c["w"][1]))
+            ctr = pos[c["at"]]
+            for i in range(bins):
+                a, b = lo + i * dl, lo + (i + 1) * dl
+                if sg > 0 and eta < 1 and not (b < ctr - 10.5 * sg or a > ctr + 10.5 * sg):
+                    want[i] += R0 * w * (1 - eta) * gauss_bin(ctr, sg, a, b)
+                if fl > 0 and eta > 0:
+                    want[i] += R0 * w * eta * lorentz_bin(ctr, fl, a, b) / dl
+        worst = max(abs(g - w) for g, w in zip(got, want))
+        # bins tens of nm wide around a line a few hundredths of a nm wide: the adaptive quadrature's own accuracy (its
+        # stopping rule compares successive orders) is what is left, 2e-3 as before; 1e-4 for resolved windows
+        tol = 2e-3 if rec["window"] == "coarse" else 1e-4
+        if worst > tol * max(max(want), 1e-300) + 1e-9 * R0 / dl:
+            i = max(range(bins), key=lambda j: abs(got[j] - want[j]))
+            bad("bins-differ-from-bin-averaged-pseudo-voigt", f"bin {i}: {got[i]!r} vs {want[i]!r}; integral {sum(got) * dl!r} vs {sum(want) * dl!r}")
         if min(got) < 0:
             bad("negative-sample", str(min(got)))
     # pi + sigma = unpolarised, bin by bin (same code on both sides)
@@ -228,7 +296,7 @@ def run(v):
     for r, vs in zip(cases, out):
         for x in vs:
             v.violation(x["sig"], x["detail"], r)
-    v.add_cases(len(cases), keys=[json.dumps({k: r[k] for k in ("model", "pol", "cs", "bzero", "tsp", "broad", "window")}, sort_keys=True) for r in cases])
+    v.add_cases(len(cases), keys=[json.dumps({k: r[k] for k in ("model", "pol", "cs", "bzero", "tsp", "broad", "window", "regime")}, sort_keys=True) for r in cases])
     from . import c02_quad
     c02_quad.run_part(v)
     v.sample(next(r for r in cases if r["model"] == "mse" and r["comps"]))
